@@ -560,7 +560,11 @@ def _where(cond, x=None, y=None):
 
 def _count_nonzero(a, axis=None, **kw):
     a = plain(np.asarray(a, dtype=object))
-    ints = np.frompyfunc(lambda v: _b(v)._as_int(), 1, 1)(a)
+    if getattr(core.CUR, 'logic', None) == 'QF_NRA':
+        # keep integer-sorted terms out of pure real-arithmetic queries
+        ints = np.frompyfunc(lambda v: SReal(core.If(_b(v).t, z3.RealVal(1), z3.RealVal(0))), 1, 1)(a)
+    else:
+        ints = np.frompyfunc(lambda v: _b(v)._as_int(), 1, 1)(a)
     return np.add.reduce(wrap(np.asarray(ints, dtype=object)), axis=axis)
 
 
@@ -615,23 +619,23 @@ def sym_argsort(a, axis=-1, **kw):
     The permutation is symbolic (fresh ints constrained to be a sorting permutation) and is
     concretised by forking: each path is one permutation numpy could return.
     """
+    import itertools
     ex = core.CUR
     a = plain(np.asarray(a, dtype=object))
     if a.ndim != 1:
         raise UnsupportedSymbolic('argsort on ndim != 1')
     n = a.shape[0]
+    if all(isinstance(_lift_num(v), (int, float)) for v in a):
+        return np.argsort(np.array([_lift_num(v) for v in a]))
     vals = [_real(v) for v in a]
-    perm = [SInt(ex.fresh_int('perm'), (0, n - 1)) for _ in range(n)]
-    for p in perm:
-        ex.side(z3.And(p.t >= 0, p.t < n))
-    if n > 1:
-        ex.side(z3.Distinct(*[p.t for p in perm]))
-    conc = [int(p) for p in perm]       # forks over permutations consistent with sortedness
+    perms = list(itertools.permutations(range(n)))
+    conc = perms[ex.choice(len(perms), 'argsort-permutation')]
     for i in range(n - 1):
         x, y = vals[conc[i]], vals[conc[i + 1]]
         # sorted: not (y < x), NaN last
         ok = Or(y.nan, And(Not(x.nan), Not(y._lt(x))))
         ex.assume(ok)
+    ex.notes.setdefault('argsort', []).append(list(conc))
     return np.array(conc, dtype=np.intp)
 
 
@@ -663,7 +667,39 @@ def _isnan_fn(a):
     return np.isnan(a)
 
 
+def _sort(a, axis=-1, kind=None, order=None, **kw):
+    p = plain(np.asarray(a, dtype=object))
+    if p.ndim != 1:
+        raise UnsupportedSymbolic('sort on ndim != 1')
+    return wrap(p[sym_argsort(p)])
+
+
+def _searchsorted(a, v, side='left', sorter=None):
+    """insertion points; concretised by forking on the comparisons"""
+    if sorter is not None:
+        raise UnsupportedSymbolic('searchsorted with sorter')
+    a = [_real(x) for x in plain(np.asarray(a, dtype=object)).ravel()]
+    vv = np.asarray(plain(v), dtype=object) if isinstance(v, np.ndarray) else None
+
+    def one(x):
+        x = _real(x)
+        k = 0
+        for y in a:
+            c = SBool(y._lt(x)) if side == 'left' else SBool(Or(y._lt(x), y._eq(x)))
+            if bool(c):
+                k += 1
+            else:
+                break
+        return k
+    if vv is None:
+        return one(v)
+    out = np.array([one(x) for x in vv.ravel()], dtype=np.intp).reshape(vv.shape)
+    return out
+
+
 FUNCS = {
+    np.sort: _sort,
+    np.searchsorted: _searchsorted,
     np.where: _where,
     np.count_nonzero: _count_nonzero,
     np.zeros_like: _zeros_like,
@@ -730,6 +766,23 @@ def sym_stack(x):
     return a.view(SymArray)
 
 
+class _F64Meta(type):
+    def __instancecheck__(cls, x):
+        return isinstance(x, np.float64) or isinstance(x, SymScalar)
+
+    def __call__(cls, x=0.0):
+        x = _lift_num(x) if not isinstance(x, SymScalar) else x
+        if isinstance(x, SymScalar):
+            return x
+        if isinstance(x, (SReal, SInt)):
+            return SymScalar(_real(x))
+        return np.float64(x)
+
+
+class _F64(metaclass=_F64Meta):
+    """np.float64 / np.float_ as seen through the facade: conversion keeps symbolic values"""
+
+
 class NumpyFacade:
     """Stands in for the ``np`` global of a valjean module during symbolic runs.  Identical to
     numpy except that (nested) lists/tuples holding symbolic values are stacked into a SymArray
@@ -740,6 +793,8 @@ class NumpyFacade:
 
     def __getattr__(self, name):
         attr = getattr(np, name)
+        if name in ('float_', 'float64', 'double'):
+            return _F64
         if isinstance(attr, type) or not callable(attr):
             return attr
         c = self._cache.get(name)
